@@ -83,6 +83,8 @@ DECIDING = {
     "pattern_errors_compared": 300, "faults_pattern_registration": 5000, "pattern_policies": 4,
     # ERROR direction at callers that define()d an exception class for the envelope error URI
     "faults_error_defined_class": 8000, "mapped_errors_compared": 300,
+    # messages written in a SECOND / THIRD session joined on the same session objects (GOODBYE, transport kept) and judged
+    "second_session_messages_judged": 3000, "rejoins": 100, "rejoin_variants": 12,
 }
 
 COMBOS = [("websocket", "json"), ("websocket", "msgpack"), ("websocket", "cbor"), ("websocket", "ubjson"),
@@ -318,6 +320,7 @@ class Ctx:
         self.secrets = []           # (pattern, kind)
         self.input_class = "regular"
         self.pair = None
+        self.session_no = 1         # > 1: the traffic runs in a later session joined on the SAME session objects
         self.pairs_built = 0
         self.cfg = "%s/%s/%s/%s" % (self.fw, self.transport, self.ser, self.lname)
 
@@ -327,7 +330,9 @@ class Ctx:
             self.R.count("pairs_rebuilt")
             self.drop()
         if self.pair is None:
-            self.pair = _P().Pair(self.transport, self.ser, self.side_a, self.side_b)
+            self.pair = _P().Pair(self.transport, self.ser, self.side_a, self.side_b,
+                                  codec_mode=self.case.get("codec_mode", "ctor"))
+            self.session_no = 1
             self.pair.define_errors(DEFINE_ANY, DEFINE_FIXED)
             self.pairs_built += 1
         return self.pair
@@ -406,6 +411,8 @@ class Ctx:
         R = self.R
         parts = P.parts_of(msg)
         enc = P.is_encrypted(parts)
+        if self.session_no > 1:
+            R.count("second_session_messages_judged")
         if key is None:
             if enc:
                 R.seen("oddities", "%s encrypted although the rule names no key" % what)
@@ -1246,7 +1253,42 @@ def family_unencodable(ctx):
                 ctx.drop()
 
 
-FAMILIES = {"roundtrip": family_roundtrip, "faults": family_faults, "unencodable": family_unencodable}
+def family_rejoin(ctx):
+    """Session life cycle: key ring set once before the first join (or, control, in every onJoin) -> traffic -> GOODBYE
+    handshake with the transport kept open -> join() again on the same object -> the same traffic must again be
+    encrypted by the key ring rule and recovered exactly (twice: both GOODBYE initiators)."""
+    R = ctx.R
+    who, first = ctx.case["who"], ctx.case["initiator"]
+    uris = ["com.c20.p.a1", "com.c20.p.q.a2", "org.c20.a6"]
+
+    def traffic():
+        for uri in uris:
+            rt_publish(ctx, uri)
+            for kind in KINDS:
+                rt_call(ctx, uri, kind)
+        rt_publish(ctx, "com.c20.p.q.a2", sub_topic="com.c20.p.", match="prefix")
+        rt_call(ctx, "com.c20.p.a1", "callresult", reg="com.c20.", match="prefix")
+
+    ctx.P()
+    traffic()
+    for initiator in (first, "router" if first == "client" else "client"):
+        p = ctx.pair
+        if p is None or not p.alive():
+            ctx.V("C20/rejoin/session-lost", "pair not alive before the GOODBYE handshake")
+            return
+        p.rejoin(who, initiator)
+        if not p.alive():
+            ctx.V("C20/rejoin/second-join-failed", "session objects did not join again on the kept transport")
+            return
+        ctx.session_no += 1
+        ctx.input_class = "later-session"
+        R.count("rejoins")
+        R.seen("rejoin_variants", "%s/%s/%s" % (who, initiator, ctx.case.get("codec_mode", "ctor")))
+        traffic()
+    ctx.input_class = "regular"
+
+
+FAMILIES = {"rejoin": family_rejoin, "roundtrip": family_roundtrip, "faults": family_faults, "unencodable": family_unencodable}
 
 
 def run_case(case, R):
@@ -1333,6 +1375,14 @@ def cases_for(params):
         shape = SHAPES[1 + (ci + fwi + seed + 3 * k) % (len(SHAPES) - 1)]
         cases.append(dict(base, family="faults", layout={"name": name, "a": a, "b": b}, seed=rng.getrandbits(48),
                           shape=shape, size=sizes[k % len(sizes)], stride=1))
+    # --- session life cycle: GOODBYE with the transport kept open, join() again on the same session objects
+    variants_rj = [(w, i, m) for m in ("ctor", "onjoin") for w in ("A", "B", "both") for i in ("client", "router")]
+    nrj = len(variants_rj) if tier != "quick" else 6
+    for k in range(nrj):
+        who, ini, mode = variants_rj[(k * 5 + ci + 3 * fwi + seed) % len(variants_rj)] if tier == "quick" else variants_rj[k]
+        name, a, b = LAYOUTS[[1, 0, 2, 3, 5, 9, 13][(k + ci + seed) % 7]]
+        cases.append(dict(base, family="rejoin", layout={"name": name, "a": a, "b": b}, seed=rng.getrandbits(48),
+                          who=who, initiator=ini, codec_mode=mode))
     # --- values the inner codec cannot carry
     name, a, b = LAYOUTS[[1, 0, 2][(ci + seed) % 3]]
     cases.append(dict(base, family="unencodable", layout={"name": name, "a": a, "b": b}, seed=rng.getrandbits(48)))
@@ -1343,7 +1393,7 @@ def run_shard(params, R):
     transport, ser = COMBOS[params["combo"]]
     R.seen("configs", "%s/%s/%s%s" % (params["fw"], transport, ser, "/purepy" if params["tier"].endswith("purepy") else ""))
     for k in DECIDING:
-        if k not in ("enc_error_uris", "layouts", "pattern_policies"):
+        if k not in ("enc_error_uris", "layouts", "pattern_policies", "rejoin_variants"):
             R.count(k, 0)
     for case in cases_for(params):
         run_case(case, R)
